@@ -203,6 +203,17 @@ func (w *vfWorld) StartIdP() *vfIdP {
 	return p
 }
 
+// StartIdPAt starts an additional, independent issuer (its own host, issuer URL and single signing key): the
+// "extra JWT issuer" of a deployment. It does not replace w.idp.
+func (w *vfWorld) StartIdPAt(host string, key int) *vfIdP {
+	p := &vfIdP{w: w, keys: append([]*vfKey(nil), vfLoadKeys()...), issuer: "http://" + host, users: map[string]*vfUser{}, codes: map[string]*vfCode{},
+		rtIndex: map[string]*vfGrant{}, atGrant: map[string]*vfGrant{}, atGen: map[string]int{}, ATInvalid: map[string]bool{},
+		Signing: key, Published: []int{key}, RefreshSupported: true, IDTokenTTL: 2 * time.Hour, AccessTTL: 2 * time.Hour}
+	p.AddUser(&vfUser{Name: "alice", Sub: "sub-alice", Email: "alice@example.com", EmailVerified: true, Groups: []string{"dev", "ops"}, PreferredUsername: "alice.p"})
+	w.net.Serve(host+":80", p)
+	return p
+}
+
 func (p *vfIdP) AddUser(u *vfUser) { p.users[u.Name] = u }
 
 // SetPadding sets the access-token padding of grants created from now on (safe in parallel passes).
